@@ -2496,16 +2496,26 @@ def gen_chained_case(rng, i):
     simultaneous or as sequential in some order of the entries – but ONE reading has to hold for every parameter of the
     circuit, bare symbols and compound expressions alike (oracle only)"""
     x, y, z = rng.sample(SYMS, 3)
-    style = ["swap", "chain", "cycle", "swap"][i % 4]
-    if style == "swap":
+    style = ["swap", "chain", "cycle", "swap", "exprchain", "exprswap", "exprmix"][i % 7]
+    if style == "exprchain":      # the VALUES are compound expressions (no bare symbol among them) mentioning other keys
+        m = [[x, {"e": f"2*{y}"}], [y, {"py": rng.choice(["1/2", "3", "-1"])}]]
+    elif style == "exprswap":
+        m = [[x, {"e": f"{y} + 1"}], [y, {"e": f"2*{x}"}]]
+    elif style == "exprmix":
+        m = [[x, {"e": f"{y}*{z}"}], [y, {"py": "3"}], [z, {"e": f"{x} - 1"}]]
+    elif style == "swap":
         m = [[x, {"e": y}], [y, {"e": x}]]
     elif style == "chain":
         m = [[x, {"e": y}], [y, {"py": rng.choice(["3", "1/2", "-1"])}]]
     else:
         m = [[x, {"e": z}], [z, {"e": x}], [y, {"py": "1"}]]
     rng.shuffle(m)
-    exprs = [x, y, f"{x} + 2*{y}", f"2*{x}", f"{x}*{y} + {z}", z, f"{y} - {x}"]
+    exprs = [x, y, f"{x} + 2*{y}", f"2*{x}", f"{x}*{y} + {z}", z, f"{y} - {x}", f"{x}*{y}", f"{x}*{y}*{z}"]
     picked = rng.sample(exprs, rng.choice([3, 4]))
+    if style.startswith("expr") and not any(e in (x, y, z) for e in picked):
+        picked.append(x)       # a bare-symbol parameter (looked up once) next to the compound ones
+    if style.startswith("expr") and not any(e in (f"{x}*{y}", f"{x}*{y}*{z}", f"{x}*{y} + {z}", f"{x} + 2*{y}") for e in picked):
+        picked.append(f"{x}*{y}")
     if i % 4 == 3:
         picked = [e for e in picked if e not in (x, y, z)] or [f"2*{x}"]       # compound parameters only
     ops = [{"op": "gate", "g": {"k": "mf", "name": rng.choice(MIX1), "params": [{"e": e}]}, "q": [rng.randrange(2)]} for e in picked]
@@ -2792,7 +2802,7 @@ def generate(rng, tier):
     shapes = ["repeat", "funcname", "falsy", "long", "repeat", "funcname", "falsy", "long"]
     for i in range(32 if big else 8):
         cases.append(gen_shape_case(hrng, shapes[i % len(shapes)], big))
-    for i in range(16 if big else 4):
+    for i in range(28 if big else 14):
         cases.append(gen_chained_case(hrng, i))
     return cases
 
